@@ -329,6 +329,10 @@ func cloneBI(b *branchInfo) *branchInfo {
 func (e *Engine) Mark(h Hash) {
 	e.Trace.Ops = append(e.Trace.Ops, Op{K: "mark", Hash: h.String()})
 	e.opIdx = len(e.Trace.Ops) - 1
+	if e.everMarked == nil {
+		e.everMarked = map[Hash]bool{}
+	}
+	e.everMarked[h] = true
 	for _, in := range e.live() {
 		m := in.M
 		before := in.Snap
